@@ -51,6 +51,29 @@ Proof.
     + inversion HL; subst. apply HPQ; assumption.
 Qed.
 
+(* the first iteration starts from P1, the later ones from P *)
+Lemma loop_inv2 : forall (P1 P Q : vst -> Prop) (R : res -> vst -> Prop) body,
+    (forall x, P1 x -> Q x) -> (forall x, P x -> Q x) ->
+    (forall x, P1 x -> R RFUEL x) -> (forall x, P x -> R RFUEL x) ->
+    (forall o x out x' o', P1 x -> body o x = (out, x', o') ->
+                           match out with Fall => P x' | Brk => Q x' | Ret r => R r x' end) ->
+    (forall o x out x' o', P x -> body o x = (out, x', o') ->
+                           match out with Fall => P x' | Brk => Q x' | Ret r => R r x' end) ->
+    forall n o x out x' o', P1 x -> loop n body o x = (out, x', o') ->
+                            match out with Fall => Q x' | Brk => False | Ret r => R r x' end.
+Proof.
+  intros P1 P Q R body H1Q HPQ H1F HPF Hb1 Hb n o x out x' o' HP HL.
+  destruct n as [|n]; simpl in HL.
+  - inversion HL; subst. apply H1F; assumption.
+  - destruct (pop o) as [go o1]. destruct go; simpl in HL.
+    + destruct (body o1 x) as [[ob xb] o2] eqn:Eb. pose proof (Hb1 _ _ _ _ _ HP Eb) as Hx.
+      destruct ob.
+      * eapply (loop_inv P Q R body); eauto.
+      * inversion HL; subst. exact Hx.
+      * inversion HL; subst. exact Hx.
+    + inversion HL; subst. apply H1Q; assumption.
+Qed.
+
 (* ------------------------------------------------------------------------------------------------ purity *)
 Section Pure.
   Variable rows : positive -> option vrow.
@@ -314,7 +337,7 @@ Section Clean.
         assert (Hcont : forall (sa : bool * bool) oa xa oa',
                    oprom x0 sa oa xa ->
                    (sa = s1 \/ sa = s2) ->
-                   match oa with (Fall) => EX k g oa' xa | _ => (oa, xa, oa') end = (out, x', o') ->
+                   match oa with Fall => EX k g oa' xa | Brk => (Brk, xa, oa') | Ret r0 => (Ret r0, xa, oa') end = (out, x', o') ->
                    oprom x0 (fst sk, snd (join2 s1 s2) || snd sk) out x').
         { intros sa oa xa oa' Hp Hsa Hy.
           assert (Hj : oprom x0 (join2 s1 s2) oa xa) by (destruct Hsa; subst sa; [apply oprom_join_l|apply oprom_join_r]; exact Hp).
@@ -325,7 +348,7 @@ Section Clean.
         destruct r.
         + (* the act succeeded *)
           destruct (EX e g o1 x1) as [[oa xa] oa'] eqn:Ea.
-          eapply (Hcont s2); [| right; reflexivity | exact Hx].
+          eapply (Hcont s2 oa xa oa'); [| right; reflexivity | exact Hx].
           eapply IHe; [exact Ee|exact Ea|].
           intros Hb. apply orb_false_iff in Hb. destruct Hb as [Hs Ht].
           eapply vsame_trans; [apply Hinv; exact Hs|eapply (do_act_pure rows prim benign T call c HcT); eauto].
@@ -334,9 +357,10 @@ Section Clean.
           unfold do_act in Ed.
           destruct a as [v i l1 l2 fr|a0 i l1 l2 mi|m| |]; try (inversion Ed; fail).
           * destruct (act_status rows prim call c (ACheck v i l1 l2 fr) o x) as [[r0 x2] o2] eqn:Es.
-            destruct fr; [|destruct r0; simpl in Ed; inversion Ed].
-            simpl in Ed. inversion Ed; subst r0 o2. clear Ed.
-            eapply (Hcont s1); [| left; reflexivity | exact Hx].
+            injection Ed as Hadj Hx1 Ho1. subst o2.
+            destruct fr; [|destruct r0; simpl in Hadj; discriminate].
+            simpl in Hadj. subst r0.
+            eapply (Hcont s1 oa xa oa'); [| left; reflexivity | exact Hx].
             eapply IHt; [exact Era|exact Ea|].
             intros Hb. apply orb_false_iff in Hb. destruct Hb as [Hs Ht].
             assert (Hx2 : vsame x x2).
@@ -344,19 +368,19 @@ Section Clean.
               - eapply (act_status_pure rows prim T call c HcT); [|exact Es]. unfold tch, touch_act in Ht.
                 destruct (act_callee (ACheck v i l1 l2 true)) as [[? ?]|]; [exact Ht|exact I].
               - apply negb_false_iff in Ht. eapply act_status_fail_clean; [exact Ht|exact Es|reflexivity]. }
-            subst x1. eapply vsame_trans; [apply Hinv; exact Hs|].
+            rewrite <- Hx1. eapply vsame_trans; [apply Hinv; exact Hs|].
             match goal with |- vsame _ (if ?bb then _ else _) => destruct bb end; [apply vsame_vf_r|]; exact Hx2.
           * destruct (act_status rows prim call c (ACall a0 i l1 l2 mi) o x) as [[r0 x2] o2] eqn:Es.
-            simpl in Ed. inversion Ed; subst x1 o2. clear Ed.
+            injection Ed as Hadj Hx1 Ho1. subst o2. simpl in Hx1. subst x2.
+            assert (Hr0 : is_fail r0 = true) by (destruct mi, r0; simpl in Hadj; try discriminate; reflexivity).
             simpl in Era.
             destruct (if mi then VS t true (seen || (tch && negb (inv_clean prim T Vs c (ACall a0 i l1 l2 mi)))) else Some (false, false)) as [sa1|] eqn:E1; [|discriminate].
             simpl in Era.
             destruct (VS t false (seen || (tch && negb (fail_clean prim T Cs c (ACall a0 i l1 l2 mi))))) as [sa2|] eqn:E2; [|discriminate].
             simpl in Era. inversion Era; subst s1. clear Era.
-            eapply (Hcont (join2 sa1 sa2)); [| left; reflexivity | exact Hx].
+            eapply (Hcont (join2 sa1 sa2) oa xa oa'); [| left; reflexivity | exact Hx].
             apply oprom_join_r.
             simpl in Ea.
-            assert (Hr0 : is_fail r0 = true) by (apply (is_fail_adjust (ACall a0 i l1 l2 mi)); rewrite H0; reflexivity).
             eapply IHt; [exact E2|exact Ea|].
             intros Hb. apply orb_false_iff in Hb. destruct Hb as [Hs Ht].
             eapply vsame_trans; [apply Hinv; exact Hs|].
@@ -369,9 +393,10 @@ Section Clean.
           unfold do_act in Ed.
           destruct a as [v i l1 l2 fr|a0 i l1 l2 mi|m| |]; try (inversion Ed; fail).
           * destruct (act_status rows prim call c (ACheck v i l1 l2 fr) o x) as [[r0 x2] o2] eqn:Es.
-            destruct fr; [|destruct r0; simpl in Ed; inversion Ed].
-            simpl in Ed. inversion Ed; subst r0 o2. clear Ed.
-            eapply (Hcont s1); [| left; reflexivity | exact Hx].
+            injection Ed as Hadj Hx1 Ho1. subst o2.
+            destruct fr; [|destruct r0; simpl in Hadj; discriminate].
+            simpl in Hadj. subst r0.
+            eapply (Hcont s1 oa xa oa'); [| left; reflexivity | exact Hx].
             eapply IHt; [exact Era|exact Ea|].
             intros Hb. apply orb_false_iff in Hb. destruct Hb as [Hs Ht].
             assert (Hx2 : vsame x x2).
@@ -379,19 +404,18 @@ Section Clean.
               - eapply (act_status_pure rows prim T call c HcT); [|exact Es]. unfold tch, touch_act in Ht.
                 destruct (act_callee (ACheck v i l1 l2 true)) as [[? ?]|]; [exact Ht|exact I].
               - apply negb_false_iff in Ht. eapply act_status_fail_clean; [exact Ht|exact Es|reflexivity]. }
-            subst x1. eapply vsame_trans; [apply Hinv; exact Hs|].
+            rewrite <- Hx1. eapply vsame_trans; [apply Hinv; exact Hs|].
             match goal with |- vsame _ (if ?bb then _ else _) => destruct bb end; [apply vsame_vf_r|]; exact Hx2.
           * destruct (act_status rows prim call c (ACall a0 i l1 l2 mi) o x) as [[r0 x2] o2] eqn:Es.
-            simpl in Ed. inversion Ed; subst x1 o2. clear Ed.
-            assert (Hr0 : r0 = RINV) by (apply (adjust_inv (ACall a0 i l1 l2 mi)); exact H0).
-            subst r0.
-            destruct mi; [|simpl in H0; discriminate].
+            injection Ed as Hadj Hx1 Ho1. subst o2. simpl in Hx1. subst x2.
+            assert (Hr0 : r0 = RINV /\ mi = true) by (destruct mi, r0; simpl in Hadj; try discriminate; auto).
+            destruct Hr0; subst r0 mi.
             simpl in Era.
             destruct (VS t true (seen || (tch && negb (inv_clean prim T Vs c (ACall a0 i l1 l2 true))))) as [sa1|] eqn:E1; [|discriminate].
             simpl in Era.
             destruct (VS t false (seen || (tch && negb (fail_clean prim T Cs c (ACall a0 i l1 l2 true))))) as [sa2|] eqn:E2; [|discriminate].
             simpl in Era. inversion Era; subst s1. clear Era.
-            eapply (Hcont (join2 sa1 sa2)); [| left; reflexivity | exact Hx].
+            eapply (Hcont (join2 sa1 sa2) oa xa oa'); [| left; reflexivity | exact Hx].
             apply oprom_join_l.
             simpl in Ea.
             eapply IHt; [exact E1|exact Ea|].
@@ -410,7 +434,7 @@ Section Clean.
         destruct (pop o) as [bb o1].
         assert (Hcont : forall (sa : bool * bool) oa xa oa',
                    oprom x0 sa oa xa -> (sa = s1 \/ sa = s2) ->
-                   match oa with (Fall) => EX k g oa' xa | _ => (oa, xa, oa') end = (out, x', o') ->
+                   match oa with Fall => EX k g oa' xa | Brk => (Brk, xa, oa') | Ret r0 => (Ret r0, xa, oa') end = (out, x', o') ->
                    oprom x0 (fst sk, snd (join2 s1 s2) || snd sk) out x').
         { intros sa oa xa oa' Hp Hsa Hy.
           assert (Hj : oprom x0 (join2 s1 s2) oa xa) by (destruct Hsa; subst sa; [apply oprom_join_l|apply oprom_join_r]; exact Hp).
@@ -420,24 +444,24 @@ Section Clean.
           - inversion Hy; subst. apply oprom_then; [exact Hj|discriminate]. }
         destruct bb.
         + destruct (EX t g o1 x) as [[oa xa] oa'] eqn:Ea.
-          eapply (Hcont s1); [| left; reflexivity | exact Hx]. eapply IHt; eauto.
+          eapply (Hcont s1 oa xa oa'); [| left; reflexivity | exact Hx]. eapply IHt; eauto.
         + destruct (EX e g o1 x) as [[oa xa] oa'] eqn:Ea.
-          eapply (Hcont s2); [| right; reflexivity | exact Hx]. eapply IHe; eauto.
+          eapply (Hcont s2 oa xa oa'); [| right; reflexivity | exact Hx]. eapply IHe; eauto.
       - (* QIfLM *)
         destruct (if is_CR c then VS e g seen else VS t g seen) as [s1|] eqn:Ea1; [|discriminate]. simpl in Hv.
         unfold then2 in Hv. destruct (VS k g (fst s1)) as [sk|] eqn:Ek; [|discriminate].
         simpl in Hv. inversion Hv; subst sres. clear Hv.
         assert (Hcont : forall oa xa oa',
                    oprom x0 s1 oa xa ->
-                   match oa with (Fall) => EX k g oa' xa | _ => (oa, xa, oa') end = (out, x', o') ->
+                   match oa with Fall => EX k g oa' xa | Brk => (Brk, xa, oa') | Ret r0 => (Ret r0, xa, oa') end = (out, x', o') ->
                    oprom x0 (fst sk, snd s1 || snd sk) out x').
         { intros oa xa oa' Hp Hy. destruct oa.
           - apply oprom_k. eapply IHk; [exact Ek|exact Hy|]. exact Hp.
           - inversion Hy; subst. apply oprom_then; [exact Hp|discriminate].
           - inversion Hy; subst. apply oprom_then; [exact Hp|discriminate]. }
         destruct (is_CR c).
-        + destruct (EX e g o x) as [[oa xa] oa'] eqn:Ea. eapply Hcont; [|exact Hx]. eapply IHe; eauto.
-        + destruct (EX t g o x) as [[oa xa] oa'] eqn:Ea. eapply Hcont; [|exact Hx]. eapply IHt; eauto.
+        + destruct (EX e g o x) as [[oa xa] oa'] eqn:Ea. eapply (Hcont oa xa oa'); [|exact Hx]. eapply IHe; eauto.
+        + destruct (EX t g o x) as [[oa xa] oa'] eqn:Ea. eapply (Hcont oa xa oa'); [|exact Hx]. eapply IHt; eauto.
       - (* QLoop *)
         destruct (VS b g seen) as [r1|] eqn:Eb; [|discriminate]. simpl in Hv.
         destruct (loop lf (fun o'0 x'0 => EX b g o'0 x'0) o x) as [[oa xa] oa'] eqn:El.
@@ -460,25 +484,15 @@ Section Clean.
         + (* a later iteration may start with something touched *)
           destruct seen; [destruct (fst r1); discriminate|].
           destruct (VS b g true) as [r2|] eqn:Eb2; [|discriminate]. simpl in Hv.
-          assert (Hrest : forall n o y oa xa oa',
-                     loop n (fun o'0 x'0 => EX b g o'0 x'0) o y = (oa, xa, oa') ->
-                     match oa with Fall => True | Brk => False | Ret r => rprom x0 r xa end).
-          { intros n o2 y ob yb ob' Hl2.
-            eapply (loop_inv (fun _ => True) (fun _ => True) (fun r y0 => rprom x0 r y0)); [auto| | |exact I|exact Hl2].
+          assert (Hl : match oa with Fall => True | Brk => False | Ret r => rprom x0 r xa end).
+          { eapply (loop_inv2 (fun y => vsame x0 y) (fun _ => True) (fun _ => True) (fun r y0 => rprom x0 r y0));
+              [auto|auto| | | | |apply Hinv; reflexivity|exact El].
             - intros; simpl; exact I.
+            - intros; simpl; exact I.
+            - intros o0 y0 ob0 y' o0' Hy Hbd. pose proof (IHb _ _ _ _ _ _ _ _ x0 Eb Hbd (fun _ => Hy)) as Hp.
+              destruct ob0; simpl; auto.
             - intros o0 y0 ob0 y' o0' _ Hbd. pose proof (IHb _ _ _ _ _ _ _ _ x0 Eb2 Hbd) as Hp.
               destruct ob0; simpl; auto. apply Hp. intros; discriminate. }
-          assert (Hl : match oa with Fall => True | Brk => False | Ret r => rprom x0 r xa end).
-          { destruct lf as [|n]; simpl in El.
-            - inversion El; subst. simpl. exact I.
-            - destruct (pop o) as [go o1]. destruct go; simpl in El.
-              + destruct (EX b g o1 x) as [[ob xb] ob'] eqn:Ebd.
-                pose proof (IHb _ _ _ _ _ _ _ _ x0 Eb Ebd Hinv) as Hp.
-                destruct ob.
-                * eapply Hrest; exact El.
-                * inversion El; subst. exact I.
-                * inversion El; subst. exact Hp.
-              + inversion El; subst. exact I. }
           destruct oa.
           * eapply IHk; [exact Hv|exact Hx|]. intros; discriminate.
           * destruct Hl.
@@ -486,3 +500,649 @@ Section Clean.
     Qed.
   End ExecClean.
 End Clean.
+
+Section RunClean.
+  Variable rows : positive -> option vrow.
+  Variable prim benign : positive -> bool.
+  Variable T C V : positive -> ctx -> bool.
+  Hypothesis Hclosed : forall id r c, rows id = Some r -> may_touch prim benign T c (vbody r) = true -> T id c = true.
+  Hypothesis HC : forall id c, C id c = true ->
+      exists r, rows id = Some r /\ is_some (vscan prim benign T C C true c (vbody r) false false) = true.
+  Hypothesis HV : forall id c, V id c = true ->
+      exists r, rows id = Some r /\ is_some (vscan prim benign T C V false c (vbody r) false false) = true.
+
+  Theorem run_clean : forall fuel c id o x r x' o',
+      run rows prim benign fuel c id o x = (r, x', o') ->
+      (T id c = false -> vsame x x') /\
+      (C id c = true -> is_fail r = true -> vsame x x') /\
+      (V id c = true -> r = RINV -> vsame x x').
+  Proof.
+    induction fuel as [|n IH]; intros c id o x r x' o' Hr.
+    - simpl in Hr. inversion Hr; subst. repeat split; intros; try apply vsame_refl; discriminate.
+    - split; [intros Ht; eapply (run_pure rows prim benign T Hclosed); eauto|].
+      simpl in Hr.
+      assert (IHT : forall c' id o x r x' o', T id c' = false -> run rows prim benign n c' id o x = (r, x', o') -> vsame x x')
+        by (intros; eapply (run_pure rows prim benign T Hclosed); eauto).
+      assert (IHC : forall c' id o x r x' o', C id c' = true -> run rows prim benign n c' id o x = (r, x', o') -> is_fail r = true -> vsame x x')
+        by (intros c' id0 o0 x1 r1 x1' o1 Hc Hrun Hf; destruct (IH _ _ _ _ _ _ _ Hrun) as [_ [H2 _]]; auto).
+      assert (IHV : forall c' id o x x' o', V id c' = true -> run rows prim benign n c' id o x = (RINV, x', o') -> vsame x x')
+        by (intros c' id0 o0 x1 x1' o1 Hc Hrun; destruct (IH _ _ _ _ _ _ _ Hrun) as [_ [_ H3]]; auto).
+      assert (IHCV : forall c' id o x x' o', C id c' = true -> run rows prim benign n c' id o x = (RINV, x', o') -> vsame x x')
+        by (intros c' id0 o0 x1 x1' o1 Hc Hrun; eapply IHC; eauto).
+      split.
+      + intros Hc Hf. destruct (HC _ _ Hc) as [r0 [Hr0 Hs]]. rewrite Hr0 in Hr.
+        destruct (vscan prim benign T C C true c (vbody r0) false false) as [sres|] eqn:Ev; [|discriminate].
+        destruct (exec rows prim benign (run rows prim benign n) n c (vbody r0) false o x) as [[oa xa] oa'] eqn:Ex.
+        pose proof (exec_vscan rows prim benign T C C (run rows prim benign n) n c true IHT IHC IHCV
+                               _ _ _ _ _ _ _ _ _ x Ev Ex (fun _ => vsame_refl x)) as Hp.
+        destruct oa; inversion Hr; subst; simpl in Hf; try discriminate.
+        simpl in Hp. destruct r; simpl in Hf; try discriminate; simpl in Hp; auto.
+      + intros Hv Hinv. subst r. destruct (HV _ _ Hv) as [r0 [Hr0 Hs]]. rewrite Hr0 in Hr.
+        destruct (vscan prim benign T C V false c (vbody r0) false false) as [sres|] eqn:Ev; [|discriminate].
+        destruct (exec rows prim benign (run rows prim benign n) n c (vbody r0) false o x) as [[oa xa] oa'] eqn:Ex.
+        pose proof (exec_vscan rows prim benign T C V (run rows prim benign n) n c false IHT IHC IHV
+                               _ _ _ _ _ _ _ _ _ x Ev Ex (fun _ => vsame_refl x)) as Hp.
+        destruct oa; inversion Hr; subst. simpl in Hp. exact Hp.
+  Qed.
+End RunClean.
+
+(* ------------------------------------------------------------------------------------------------ failing checks return failures *)
+Section Guarded.
+  Variable rows : positive -> option vrow.
+  Variable prim benign : positive -> bool.
+  Variable call : ctx -> positive -> list bool -> vst -> res * vst * list bool.
+  Variable lf : nat.
+  Variable c : ctx.
+  Notation EX := (exec rows prim benign call lf c).
+
+  (* a sequence without `break` and without a non-failing `return`: it falls through (then it does not "always fail") or
+     returns a failure *)
+  Lemma no_ok_ret_exec : forall q g o x out x' o',
+      no_ok_ret q = true -> EX q g o x = (out, x', o') ->
+      (out = Fall /\ always_fails q = false) \/ (exists r, out = Ret r /\ r <> ROK).
+  Proof.
+    induction q as [|r| |a k IHk|a t IHt e IHe k IHk|t IHt e IHe k IHk|t IHt e IHe k IHk|b IHb k IHk];
+      intros g o x out x' o' Hn Hx; simpl in Hn, Hx.
+    - inversion Hx; subst. left; split; reflexivity.
+    - destruct r; try discriminate. unfold do_ret in Hx. inversion Hx; subst. right.
+      destruct g; eexists; split; try reflexivity; discriminate.
+    - discriminate.
+    - destruct (do_act rows prim benign call c a o x) as [[r x1] o1].
+      destruct r; try (destruct (IHk _ _ _ _ _ _ Hn Hx) as [[H1 H2]|H]; [left; split; [exact H1|simpl; exact H2]|right; exact H]).
+      inversion Hx; subst. right. eexists; split; [reflexivity|discriminate].
+    - apply andb_true_iff in Hn. destruct Hn as [Hn Hk]. apply andb_true_iff in Hn. destruct Hn as [Ht He].
+      assert (Harm : forall q0 g0 o1 x1, no_ok_ret q0 = true ->
+                       (forall g o x out x' o', no_ok_ret q0 = true -> EX q0 g o x = (out, x', o') ->
+                            (out = Fall /\ always_fails q0 = false) \/ (exists r, out = Ret r /\ r <> ROK)) ->
+                       match EX q0 g0 o1 x1 with
+                       | (Fall, x2, o2) => EX k g o2 x2
+                       | (Brk, x2, o2) => (Brk, x2, o2)
+                       | (Ret r0, x2, o2) => (Ret r0, x2, o2)
+                       end = (out, x', o') ->
+                       (out = Fall /\ always_fails q0 = false /\ always_fails k = false) \/ (exists r, out = Ret r /\ r <> ROK)).
+      { intros q0 g0 o1 x1 Hq0 IH0 Hy. destruct (EX q0 g0 o1 x1) as [[oa xa] oa'] eqn:Ea.
+        destruct (IH0 _ _ _ _ _ _ Hq0 Ea) as [[H1 H2]|[r0 [H1 H2]]]; subst oa.
+        - destruct (IHk _ _ _ _ _ _ Hk Hy) as [[H3 H4]|H]; [left|right; exact H].
+          split; [exact H3|]. split; assumption.
+        - inversion Hy; subst. right. exists r0. split; [reflexivity|exact H2]. }
+      destruct (do_act rows prim benign call c a o x) as [[r x1] o1].
+      destruct r.
+      + destruct (Harm e g o1 x1 He IHe Hx) as [[H1 [H2 H3]]|H]; [left|right; exact H].
+        split; [exact H1|]. simpl. rewrite H2, H3. rewrite andb_false_r. reflexivity.
+      + destruct (Harm t _ o1 x1 Ht IHt Hx) as [[H1 [H2 H3]]|H]; [left|right; exact H].
+        split; [exact H1|]. simpl. rewrite H2, H3. reflexivity.
+      + destruct (Harm t _ o1 x1 Ht IHt Hx) as [[H1 [H2 H3]]|H]; [left|right; exact H].
+        split; [exact H1|]. simpl. rewrite H2, H3. reflexivity.
+      + inversion Hx; subst. right. eexists; split; [reflexivity|discriminate].
+    - apply andb_true_iff in Hn. destruct Hn as [Hn Hk]. apply andb_true_iff in Hn. destruct Hn as [Ht He].
+      destruct (pop o) as [bb o1].
+      destruct bb.
+      + destruct (EX t g o1 x) as [[oa xa] oa'] eqn:Ea.
+        destruct (IHt _ _ _ _ _ _ Ht Ea) as [[H1 H2]|[r0 [H1 H2]]]; subst oa.
+        * destruct (IHk _ _ _ _ _ _ Hk Hx) as [[H3 H4]|H]; [left|right; exact H].
+          split; [exact H3|]. simpl. rewrite H2, H4. reflexivity.
+        * inversion Hx; subst. right. exists r0. split; [reflexivity|exact H2].
+      + destruct (EX e g o1 x) as [[oa xa] oa'] eqn:Ea.
+        destruct (IHe _ _ _ _ _ _ He Ea) as [[H1 H2]|[r0 [H1 H2]]]; subst oa.
+        * destruct (IHk _ _ _ _ _ _ Hk Hx) as [[H3 H4]|H]; [left|right; exact H].
+          split; [exact H3|]. simpl. rewrite H2, H4. rewrite andb_false_r. reflexivity.
+        * inversion Hx; subst. right. exists r0. split; [reflexivity|exact H2].
+    - apply andb_true_iff in Hn. destruct Hn as [Hn Hk]. apply andb_true_iff in Hn. destruct Hn as [Ht He].
+      destruct (is_CR c).
+      + destruct (EX e g o x) as [[oa xa] oa'] eqn:Ea.
+        destruct (IHe _ _ _ _ _ _ He Ea) as [[H1 H2]|[r0 [H1 H2]]]; subst oa.
+        * destruct (IHk _ _ _ _ _ _ Hk Hx) as [[H3 H4]|H]; [left|right; exact H].
+          split; [exact H3|]. simpl. rewrite H2, H4. rewrite andb_false_r. reflexivity.
+        * inversion Hx; subst. right. exists r0. split; [reflexivity|exact H2].
+      + destruct (EX t g o x) as [[oa xa] oa'] eqn:Ea.
+        destruct (IHt _ _ _ _ _ _ Ht Ea) as [[H1 H2]|[r0 [H1 H2]]]; subst oa.
+        * destruct (IHk _ _ _ _ _ _ Hk Hx) as [[H3 H4]|H]; [left|right; exact H].
+          split; [exact H3|]. simpl. rewrite H2, H4. reflexivity.
+        * inversion Hx; subst. right. exists r0. split; [reflexivity|exact H2].
+    - apply andb_true_iff in Hn. destruct Hn as [Hb Hk].
+      destruct (loop lf (fun o'0 x'0 => EX b g o'0 x'0) o x) as [[oa xa] oa'] eqn:El.
+      assert (Hl : match oa with Fall => True | Brk => False | Ret r => r <> ROK end).
+      { eapply (loop_inv (fun _ => True) (fun _ => True) (fun r _ => r <> ROK)); [auto| | |exact I|exact El].
+        - intros; discriminate.
+        - intros o0 y ob y' o0' _ Hbd. destruct (IHb _ _ _ _ _ _ Hb Hbd) as [[H1 H2]|[r0 [H1 H2]]]; subst ob; auto. }
+      destruct oa.
+      + destruct (IHk _ _ _ _ _ _ Hk Hx) as [[H3 H4]|H]; [left; split; [exact H3|simpl; exact H4]|right; exact H].
+      + destruct Hl.
+      + inversion Hx; subst. right. exists r. split; [reflexivity|exact Hl].
+  Qed.
+
+  Lemma arm_fails_exec : forall q g o x out x' o',
+      arm_fails q = true -> EX q g o x = (out, x', o') -> exists r, out = Ret r /\ r <> ROK.
+  Proof.
+    intros q g o x out x' o' Ha Hx. unfold arm_fails in Ha. apply andb_true_iff in Ha. destruct Ha as [Haf Hn].
+    destruct (no_ok_ret_exec _ _ _ _ _ _ _ Hn Hx) as [[_ H2]|H]; [congruence|exact H].
+  Qed.
+
+  (* the callee's "a check failed" flag is local to the callee: after an act the flag is set iff the act was a counted
+     check that failed *)
+  Lemma do_act_vf : forall a o x r x1 o1,
+      do_act rows prim benign call c a o x = (r, x1, o1) ->
+      v_vf x1 = (v_vf x || (is_counted_check a && is_fail r)).
+  Proof.
+    intros a o x r x1 o1 Hd. unfold do_act in Hd.
+    assert (Hst : forall r0 x2 o2, act_status rows prim call c a o x = (r0, x2, o2) -> v_vf x2 = v_vf x).
+    { intros r0 x2 o2 Hs. unfold act_status in Hs. destruct (act_callee a) as [[i a0]|].
+      - unfold do_callee in Hs. destruct (rows i).
+        + destruct (call (tgt a0 c) i o (if prim i then vadd_file x i else x)) as [[r2 x3] o3]. inversion Hs; subst. reflexivity.
+        + destruct (pop o) as [b o3]. inversion Hs; subst. destruct (prim i); reflexivity.
+      - destruct (pop o) as [b o3]. inversion Hs; subst. reflexivity. }
+    destruct a as [v i l1 l2 fr|a0 i l1 l2 mi|m| |].
+    - destruct (act_status rows prim call c (ACheck v i l1 l2 fr) o x) as [[r0 x2] o2] eqn:Es.
+      pose proof (Hst _ _ _ eq_refl) as Hv. injection Hd as Hr Hx1 Ho. subst r x1 o1.
+      destruct fr, r0, (counted v) eqn:Ecv; simpl; rewrite ?Ecv; simpl; rewrite ?Hv, ?orb_true_r, ?orb_false_r; reflexivity.
+    - destruct (act_status rows prim call c (ACall a0 i l1 l2 mi) o x) as [[r0 x2] o2] eqn:Es.
+      pose proof (Hst _ _ _ eq_refl) as Hv. injection Hd as Hr Hx1 Ho. subst r x1 o1. simpl. rewrite Hv, orb_false_r. reflexivity.
+    - inversion Hd; subst. simpl. rewrite orb_false_r. destruct (benign m); reflexivity.
+    - inversion Hd; subst. simpl. rewrite orb_false_r. reflexivity.
+    - inversion Hd; subst. simpl. rewrite orb_false_r. reflexivity.
+  Qed.
+
+  Lemma exec_guarded : forall q g o x out x' o',
+      guarded q = true -> v_vf x = false -> EX q g o x = (out, x', o') -> v_vf x' = true ->
+      exists r, out = Ret r /\ r <> ROK.
+  Proof.
+    induction q as [|r| |a k IHk|a t IHt e IHe k IHk|t IHt e IHe k IHk|t IHt e IHe k IHk|b IHb k IHk];
+      intros g o x out x' o' Hg Hv Hx Hv'; simpl in Hg, Hx.
+    - inversion Hx; subst. congruence.
+    - unfold do_ret in Hx. destruct r; try (inversion Hx; subst; congruence).
+      destruct g; [inversion Hx; subst; congruence|]. destruct (pop o) as [bb o1]. inversion Hx; subst. congruence.
+    - inversion Hx; subst. congruence.
+    - apply andb_true_iff in Hg. destruct Hg as [Ha Hk]. apply negb_true_iff in Ha.
+      destruct (do_act rows prim benign call c a o x) as [[r x1] o1] eqn:Ed.
+      pose proof (do_act_vf _ _ _ _ _ _ Ed) as Hvf. rewrite Hv, Ha in Hvf. simpl in Hvf.
+      destruct r; [eapply IHk; eauto|eapply IHk; eauto|eapply IHk; eauto|].
+      inversion Hx; subst. eexists; split; [reflexivity|discriminate].
+    - apply andb_true_iff in Hg. destruct Hg as [Hg Hk]. apply andb_true_iff in Hg. destruct Hg as [Ht He].
+      destruct (do_act rows prim benign call c a o x) as [[r x1] o1] eqn:Ed.
+      pose proof (do_act_vf _ _ _ _ _ _ Ed) as Hvf. rewrite Hv in Hvf. simpl in Hvf.
+      assert (Hcont : forall oa xa oa',
+                 (v_vf xa = true -> exists r0, oa = Ret r0 /\ r0 <> ROK) ->
+                 match oa with Fall => EX k g oa' xa | Brk => (Brk, xa, oa') | Ret r0 => (Ret r0, xa, oa') end = (out, x', o') ->
+                 exists r0, out = Ret r0 /\ r0 <> ROK).
+      { intros oa xa oa' Hp Hy. destruct oa.
+        - destruct (v_vf xa) eqn:Evf; [destruct (Hp eq_refl) as [r0 [H1 _]]; discriminate|]. eapply IHk; eauto.
+        - inversion Hy; subst. destruct (Hp Hv') as [r0 [H1 _]]; discriminate.
+        - inversion Hy; subst. destruct (v_vf x') eqn:Evf; [|discriminate]. apply Hp; reflexivity. }
+      destruct r.
+      + rewrite andb_false_r in Hvf.
+        destruct (EX e g o1 x1) as [[oa xa] oa'] eqn:Ea.
+        eapply (Hcont oa xa oa'); [|exact Hx]. intros Hxa. eapply IHe; eauto.
+      + destruct (EX t (arm_guard a RERR) o1 x1) as [[oa xa] oa'] eqn:Ea.
+        eapply (Hcont oa xa oa'); [|exact Hx]. intros Hxa.
+        destruct (is_counted_check a) eqn:Ec.
+        * eapply arm_fails_exec; eauto.
+        * simpl in Hvf. eapply IHt; eauto.
+      + destruct (EX t (arm_guard a RINV) o1 x1) as [[oa xa] oa'] eqn:Ea.
+        eapply (Hcont oa xa oa'); [|exact Hx]. intros Hxa.
+        destruct (is_counted_check a) eqn:Ec.
+        * eapply arm_fails_exec; eauto.
+        * simpl in Hvf. eapply IHt; eauto.
+      + inversion Hx; subst. eexists; split; [reflexivity|discriminate].
+    - apply andb_true_iff in Hg. destruct Hg as [Hg Hk]. apply andb_true_iff in Hg. destruct Hg as [Ht He].
+      destruct (pop o) as [bb o1].
+      assert (Hcont : forall oa xa oa',
+                 (v_vf xa = true -> exists r0, oa = Ret r0 /\ r0 <> ROK) ->
+                 match oa with Fall => EX k g oa' xa | Brk => (Brk, xa, oa') | Ret r0 => (Ret r0, xa, oa') end = (out, x', o') ->
+                 exists r0, out = Ret r0 /\ r0 <> ROK).
+      { intros oa xa oa' Hp Hy. destruct oa.
+        - destruct (v_vf xa) eqn:Evf; [destruct (Hp eq_refl) as [r0 [H1 _]]; discriminate|]. eapply IHk; eauto.
+        - inversion Hy; subst. destruct (Hp Hv') as [r0 [H1 _]]; discriminate.
+        - inversion Hy; subst. destruct (v_vf x') eqn:Evf; [|discriminate]. apply Hp; reflexivity. }
+      destruct bb.
+      + destruct (EX t g o1 x) as [[oa xa] oa'] eqn:Ea. eapply (Hcont oa xa oa'); [|exact Hx]. intros; eapply IHt; eauto.
+      + destruct (EX e g o1 x) as [[oa xa] oa'] eqn:Ea. eapply (Hcont oa xa oa'); [|exact Hx]. intros; eapply IHe; eauto.
+    - apply andb_true_iff in Hg. destruct Hg as [Hg Hk]. apply andb_true_iff in Hg. destruct Hg as [Ht He].
+      assert (Hcont : forall oa xa oa',
+                 (v_vf xa = true -> exists r0, oa = Ret r0 /\ r0 <> ROK) ->
+                 match oa with Fall => EX k g oa' xa | Brk => (Brk, xa, oa') | Ret r0 => (Ret r0, xa, oa') end = (out, x', o') ->
+                 exists r0, out = Ret r0 /\ r0 <> ROK).
+      { intros oa xa oa' Hp Hy. destruct oa.
+        - destruct (v_vf xa) eqn:Evf; [destruct (Hp eq_refl) as [r0 [H1 _]]; discriminate|]. eapply IHk; eauto.
+        - inversion Hy; subst. destruct (Hp Hv') as [r0 [H1 _]]; discriminate.
+        - inversion Hy; subst. destruct (v_vf x') eqn:Evf; [|discriminate]. apply Hp; reflexivity. }
+      destruct (is_CR c).
+      + destruct (EX e g o x) as [[oa xa] oa'] eqn:Ea. eapply (Hcont oa xa oa'); [|exact Hx]. intros; eapply IHe; eauto.
+      + destruct (EX t g o x) as [[oa xa] oa'] eqn:Ea. eapply (Hcont oa xa oa'); [|exact Hx]. intros; eapply IHt; eauto.
+    - apply andb_true_iff in Hg. destruct Hg as [Hb Hk].
+      destruct (loop lf (fun o'0 x'0 => EX b g o'0 x'0) o x) as [[oa xa] oa'] eqn:El.
+      assert (Hl : match oa with Fall => v_vf xa = false | Brk => False | Ret r => v_vf xa = true -> r <> ROK end).
+      { eapply (loop_inv (fun y => v_vf y = false) (fun y => v_vf y = false) (fun r y => v_vf y = true -> r <> ROK)); [auto| | |exact Hv|exact El].
+        - intros; discriminate.
+        - intros o0 y ob y' o0' Hy Hbd.
+          destruct (v_vf y') eqn:Evf.
+          + destruct (IHb _ _ _ _ _ _ Hb Hy Hbd Evf) as [r0 [H1 H2]]. subst ob. intros _. exact H2.
+          + destruct ob; auto. intros; discriminate. }
+      destruct oa.
+      + eapply IHk; eauto.
+      + destruct Hl.
+      + inversion Hx; subst. exists r. split; [reflexivity|auto].
+  Qed.
+End Guarded.
+
+Theorem run_guarded : forall rows prim benign n c id r0 o x res x' o',
+    rows id = Some r0 -> guarded (vbody r0) = true -> v_vf x = false ->
+    run rows prim benign (S n) c id o x = (res, x', o') -> v_vf x' = true -> res <> ROK.
+Proof.
+  intros rows prim benign n c id r0 o x res x' o' Hr Hg Hv Hrun Hv'. simpl in Hrun. rewrite Hr in Hrun.
+  destruct (exec rows prim benign (run rows prim benign n) n c (vbody r0) false o x) as [[oa xa] oa'] eqn:Ex.
+  assert (Hxa : xa = x') by (destruct oa; inversion Hrun; reflexivity). subst xa.
+  destruct (exec_guarded _ _ _ _ _ _ _ _ _ _ _ _ _ Hg Hv Ex Hv') as [r [H1 H2]]. subst oa. inversion Hrun; subst. exact H2.
+Qed.
+
+(* ------------------------------------------------------------------------------------------------ error messages *)
+Section Noisy.
+  Variable rows : positive -> option vrow.
+  Variable prim benign : positive -> bool.
+  Variable NS : positive -> ctx -> bool.
+
+  Section ExecNoisy.
+    Variable call : ctx -> positive -> list bool -> vst -> res * vst * list bool.
+    Variable lf : nat.
+    Variable c : ctx.
+    Hypothesis Hmono : forall c' id o x r x' o', call c' id o x = (r, x', o') -> v_err x = true -> v_err x' = true.
+    Hypothesis Hns : forall c' id o x r x' o', NS id c' = true -> call c' id o x = (r, x', o') -> is_fail r = true -> v_err x' = true.
+    Hypothesis Hnsrow : forall id c', NS id c' = true -> rows id <> None.
+    Notation EX := (exec rows prim benign call lf c).
+    Notation ES := (escan NS c).
+
+    Lemma act_status_mono : forall a o x r x1 o1,
+        act_status rows prim call c a o x = (r, x1, o1) -> v_err x = true -> v_err x1 = true.
+    Proof.
+      intros a o x r x1 o1 Hs He. unfold act_status in Hs. destruct (act_callee a) as [[i a0]|].
+      - unfold do_callee in Hs. destruct (rows i).
+        + destruct (call (tgt a0 c) i o (if prim i then vadd_file x i else x)) as [[r2 x3] o3] eqn:Ec. inversion Hs; subst. simpl.
+          eapply Hmono; [exact Ec|]. destruct (prim i); exact He.
+        + destruct (pop o) as [b o3]. inversion Hs; subst. destruct (prim i); exact He.
+      - destruct (pop o) as [b o3]. inversion Hs; subst. exact He.
+    Qed.
+
+    Lemma do_act_mono : forall a o x r x1 o1,
+        do_act rows prim benign call c a o x = (r, x1, o1) -> v_err x = true -> v_err x1 = true.
+    Proof.
+      intros a o x r x1 o1 Hd He. unfold do_act in Hd.
+      destruct a as [v i l1 l2 fr|a0 i l1 l2 mi|m| |].
+      - destruct (act_status rows prim call c (ACheck v i l1 l2 fr) o x) as [[r0 x2] o2] eqn:Es.
+        pose proof (act_status_mono _ _ _ _ _ _ Es He) as H2. injection Hd as Hr Hx1 Ho. subst x1.
+        match goal with |- v_err (if ?bb then _ else _) = _ => destruct bb end; simpl; exact H2.
+      - destruct (act_status rows prim call c (ACall a0 i l1 l2 mi) o x) as [[r0 x2] o2] eqn:Es.
+        pose proof (act_status_mono _ _ _ _ _ _ Es He) as H2. injection Hd as Hr Hx1 Ho. subst x1. simpl. exact H2.
+      - inversion Hd; subst. destruct (benign m); exact He.
+      - inversion Hd; subst. reflexivity.
+      - inversion Hd; subst. exact He.
+    Qed.
+
+    Lemma exec_mono : forall q g o x out x' o',
+        EX q g o x = (out, x', o') -> v_err x = true -> v_err x' = true.
+    Proof.
+      induction q as [|r| |a k IHk|a t IHt e IHe k IHk|t IHt e IHe k IHk|t IHt e IHe k IHk|b IHb k IHk];
+        intros g o x out x' o' Hx He; simpl in Hx.
+      - inversion Hx; subst; exact He.
+      - unfold do_ret in Hx. destruct r; try (inversion Hx; subst; exact He).
+        destruct g; [inversion Hx; subst; exact He|]. destruct (pop o) as [bb o1]; inversion Hx; subst; exact He.
+      - inversion Hx; subst; exact He.
+      - destruct (do_act rows prim benign call c a o x) as [[r x1] o1] eqn:Ed.
+        pose proof (do_act_mono _ _ _ _ _ _ Ed He) as H1.
+        destruct r; [eapply IHk; eauto|eapply IHk; eauto|eapply IHk; eauto|inversion Hx; subst; exact H1].
+      - destruct (do_act rows prim benign call c a o x) as [[r x1] o1] eqn:Ed.
+        pose proof (do_act_mono _ _ _ _ _ _ Ed He) as H1.
+        assert (Harm : forall q0 g0, (forall g o x out x' o', EX q0 g o x = (out, x', o') -> v_err x = true -> v_err x' = true) ->
+                   match EX q0 g0 o1 x1 with
+                   | (Fall, x2, o2) => EX k g o2 x2 | (Brk, x2, o2) => (Brk, x2, o2) | (Ret r0, x2, o2) => (Ret r0, x2, o2) end = (out, x', o') ->
+                   v_err x' = true).
+        { intros q0 g0 IH0 Hy. destruct (EX q0 g0 o1 x1) as [[oa xa] oa'] eqn:Ea. pose proof (IH0 _ _ _ _ _ _ Ea H1) as H2.
+          destruct oa; [eapply IHk; eauto|inversion Hy; subst; exact H2|inversion Hy; subst; exact H2]. }
+        destruct r; [eapply (Harm e); eauto|eapply (Harm t); eauto|eapply (Harm t); eauto|inversion Hx; subst; exact H1].
+      - destruct (pop o) as [bb o1]. destruct bb.
+        + destruct (EX t g o1 x) as [[oa xa] oa'] eqn:Ea. pose proof (IHt _ _ _ _ _ _ Ea He) as H2.
+          destruct oa; [eapply IHk; eauto|inversion Hx; subst; exact H2|inversion Hx; subst; exact H2].
+        + destruct (EX e g o1 x) as [[oa xa] oa'] eqn:Ea. pose proof (IHe _ _ _ _ _ _ Ea He) as H2.
+          destruct oa; [eapply IHk; eauto|inversion Hx; subst; exact H2|inversion Hx; subst; exact H2].
+      - destruct (is_CR c).
+        + destruct (EX e g o x) as [[oa xa] oa'] eqn:Ea. pose proof (IHe _ _ _ _ _ _ Ea He) as H2.
+          destruct oa; [eapply IHk; eauto|inversion Hx; subst; exact H2|inversion Hx; subst; exact H2].
+        + destruct (EX t g o x) as [[oa xa] oa'] eqn:Ea. pose proof (IHt _ _ _ _ _ _ Ea He) as H2.
+          destruct oa; [eapply IHk; eauto|inversion Hx; subst; exact H2|inversion Hx; subst; exact H2].
+      - destruct (loop lf (fun o'0 x'0 => EX b g o'0 x'0) o x) as [[oa xa] oa'] eqn:El.
+        assert (Hl : match oa with Fall => v_err xa = true | Brk => False | Ret _ => v_err xa = true end).
+        { eapply (loop_inv (fun y => v_err y = true) (fun y => v_err y = true) (fun _ y => v_err y = true)); [auto|auto| |exact He|exact El].
+          intros o0 y ob y' o0' Hy Hbd. pose proof (IHb _ _ _ _ _ _ Hbd Hy). destruct ob; assumption. }
+        destruct oa; [eapply IHk; eauto|destruct Hl|inversion Hx; subst; exact Hl].
+    Qed.
+
+    Definition eprom (eres : bool * bool) (o : out) (x' : vst) : Prop :=
+      match o with
+      | Fall => fst eres = true -> v_err x' = true
+      | Brk => snd eres = true -> v_err x' = true
+      | Ret r => is_fail r = true -> v_err x' = true
+      end.
+
+    Lemma exec_escan : forall q g err eres o x out x' o',
+        ES q err = Some eres ->
+        EX q g o x = (out, x', o') ->
+        (err = true -> v_err x = true) ->
+        eprom eres out x'.
+    Proof.
+      induction q as [|r| |a k IHk|a t IHt e IHe k IHk|t IHt e IHe k IHk|t IHt e IHe k IHk|b IHb k IHk];
+        intros g err eres o x out x' o' Hs Hx Hinv; simpl in Hs, Hx.
+      - inversion Hs; subst. inversion Hx; subst. simpl. exact Hinv.
+      - destruct (failing r && negb err) eqn:Ef; [discriminate|]. inversion Hs; subst eres.
+        unfold do_ret in Hx. destruct r; try (inversion Hx; subst; simpl; intros; discriminate).
+        + simpl in Ef. apply negb_false_iff in Ef. inversion Hx; subst out x' o'. simpl. intros _. apply Hinv. exact Ef.
+        + simpl in Ef. apply negb_false_iff in Ef. destruct g.
+          * inversion Hx; subst out x' o'. simpl. intros _. apply Hinv. exact Ef.
+          * destruct (pop o) as [bb o1]. inversion Hx; subst out x' o'. simpl. intros _. apply Hinv. exact Ef.
+      - inversion Hs; subst. inversion Hx; subst. simpl. exact Hinv.
+      - destruct (do_act rows prim benign call c a o x) as [[r x1] o1] eqn:Ed.
+        assert (H1 : err || is_err a = true -> v_err x1 = true).
+        { intros Hb. apply orb_true_iff in Hb. destruct Hb as [Hb|Hb].
+          - eapply do_act_mono; eauto.
+          - destruct a; try discriminate. unfold do_act in Ed. inversion Ed; subst. reflexivity. }
+        destruct r; [eapply IHk; eauto|eapply IHk; eauto|eapply IHk; eauto|].
+        inversion Hx; subst. simpl. intros; discriminate.
+      - destruct (ES t (err || act_noisy NS c a)) as [e1|] eqn:Et; [|discriminate]. simpl in Hs.
+        destruct (ES e err) as [e2|] eqn:Ee; [|discriminate]. simpl in Hs.
+        unfold ethen2 in Hs. destruct (ES k (fst (meet2 e1 e2))) as [ek|] eqn:Ek; [|discriminate]. simpl in Hs.
+        inversion Hs; subst eres. clear Hs.
+        destruct (do_act rows prim benign call c a o x) as [[r x1] o1] eqn:Ed.
+        assert (Hcont : forall (ea : bool * bool) oa xa oa',
+                   eprom ea oa xa -> (ea = e1 \/ ea = e2) ->
+                   match oa with Fall => EX k g oa' xa | Brk => (Brk, xa, oa') | Ret r0 => (Ret r0, xa, oa') end = (out, x', o') ->
+                   eprom (fst ek, snd (meet2 e1 e2) && snd ek) out x').
+        { intros ea oa xa oa' Hp Hea Hy. destruct oa.
+          - assert (Hk : eprom ek out x').
+            { eapply IHk; [exact Ek|exact Hy|]. simpl. intros Hb. apply andb_true_iff in Hb. destruct Hb as [Hb1 Hb2].
+              simpl in Hp. apply Hp. destruct Hea; subst ea; assumption. }
+            destruct out; simpl in *; auto. intros Hb. apply andb_true_iff in Hb. destruct Hb. auto.
+          - inversion Hy; subst. simpl in *. intros Hb. apply andb_true_iff in Hb. destruct Hb as [Hb _].
+            apply andb_true_iff in Hb. destruct Hb as [Hb1 Hb2]. apply Hp. destruct Hea; subst ea; assumption.
+          - inversion Hy; subst. simpl in *. exact Hp. }
+        assert (Hx1 : err = true -> v_err x1 = true) by (intros; eapply do_act_mono; eauto).
+        assert (Hfail : is_fail r = true -> err || act_noisy NS c a = true -> v_err x1 = true).
+        { intros Hf Hb. apply orb_true_iff in Hb. destruct Hb as [Hb|Hb]; [auto|].
+          unfold act_noisy in Hb. unfold do_act in Ed.
+          destruct a as [v i l1 l2 fr|a0 i l1 l2 mi|m| |]; try (simpl in Hb; discriminate).
+          - unfold act_callee in Hb. destruct (Pos.eqb i 1) eqn:Ei; [discriminate|].
+            destruct (act_status rows prim call c (ACheck v i l1 l2 fr) o x) as [[r0 x2] o2] eqn:Es.
+            injection Ed as Hr Hx2 Ho. subst r.
+            assert (Hr0 : is_fail r0 = true) by (destruct fr, r0; simpl in Hf; try discriminate; reflexivity).
+            assert (H2 : v_err x2 = true).
+            { unfold act_status, act_callee in Es. rewrite Ei in Es.
+              unfold do_callee in Es. destruct (rows i) eqn:Eri.
+              - destruct (call (tgt ANone c) i o (if prim i then vadd_file x i else x)) as [[r2 x3] o3] eqn:Ec.
+                inversion Es; subst. simpl. eapply Hns; eauto.
+              - exfalso. eapply Hnsrow; eauto. }
+            subst x1. match goal with |- v_err (if ?bb then _ else _) = _ => destruct bb end; simpl; exact H2.
+          - unfold act_callee in Hb. destruct (Pos.eqb i 1) eqn:Ei; [discriminate|].
+            destruct (act_status rows prim call c (ACall a0 i l1 l2 mi) o x) as [[r0 x2] o2] eqn:Es.
+            injection Ed as Hr Hx2 Ho. subst r.
+            assert (Hr0 : is_fail r0 = true) by (destruct mi, r0; simpl in Hf; try discriminate; reflexivity).
+            subst x1. simpl.
+            unfold act_status, act_callee in Es. rewrite Ei in Es.
+            unfold do_callee in Es. destruct (rows i) eqn:Eri.
+            + destruct (call (tgt a0 c) i o (if prim i then vadd_file x i else x)) as [[r2 x3] o3] eqn:Ec.
+              inversion Es; subst. simpl. eapply Hns; eauto.
+            + exfalso. eapply Hnsrow; eauto. }
+        destruct r.
+        + destruct (EX e g o1 x1) as [[oa xa] oa'] eqn:Ea.
+          eapply (Hcont e2 oa xa oa'); [|right; reflexivity|exact Hx]. eapply IHe; eauto.
+        + destruct (EX t (arm_guard a RERR) o1 x1) as [[oa xa] oa'] eqn:Ea.
+          eapply (Hcont e1 oa xa oa'); [|left; reflexivity|exact Hx]. eapply IHt; [exact Et|exact Ea|]. apply Hfail; reflexivity.
+        + destruct (EX t (arm_guard a RINV) o1 x1) as [[oa xa] oa'] eqn:Ea.
+          eapply (Hcont e1 oa xa oa'); [|left; reflexivity|exact Hx]. eapply IHt; [exact Et|exact Ea|]. apply Hfail; reflexivity.
+        + inversion Hx; subst. simpl. intros; discriminate.
+      - destruct (ES t err) as [e1|] eqn:Et; [|discriminate]. simpl in Hs.
+        destruct (ES e err) as [e2|] eqn:Ee; [|discriminate]. simpl in Hs.
+        unfold ethen2 in Hs. destruct (ES k (fst (meet2 e1 e2))) as [ek|] eqn:Ek; [|discriminate]. simpl in Hs.
+        inversion Hs; subst eres. clear Hs.
+        destruct (pop o) as [bb o1].
+        assert (Hcont : forall (ea : bool * bool) oa xa oa',
+                   eprom ea oa xa -> (ea = e1 \/ ea = e2) ->
+                   match oa with Fall => EX k g oa' xa | Brk => (Brk, xa, oa') | Ret r0 => (Ret r0, xa, oa') end = (out, x', o') ->
+                   eprom (fst ek, snd (meet2 e1 e2) && snd ek) out x').
+        { intros ea oa xa oa' Hp Hea Hy. destruct oa.
+          - assert (Hk : eprom ek out x').
+            { eapply IHk; [exact Ek|exact Hy|]. simpl. intros Hb. apply andb_true_iff in Hb. destruct Hb as [Hb1 Hb2].
+              simpl in Hp. apply Hp. destruct Hea; subst ea; assumption. }
+            destruct out; simpl in *; auto. intros Hb. apply andb_true_iff in Hb. destruct Hb. auto.
+          - inversion Hy; subst. simpl in *. intros Hb. apply andb_true_iff in Hb. destruct Hb as [Hb _].
+            apply andb_true_iff in Hb. destruct Hb as [Hb1 Hb2]. apply Hp. destruct Hea; subst ea; assumption.
+          - inversion Hy; subst. simpl in *. exact Hp. }
+        destruct bb.
+        + destruct (EX t g o1 x) as [[oa xa] oa'] eqn:Ea. eapply (Hcont e1 oa xa oa'); [|left; reflexivity|exact Hx]. eapply IHt; eauto.
+        + destruct (EX e g o1 x) as [[oa xa] oa'] eqn:Ea. eapply (Hcont e2 oa xa oa'); [|right; reflexivity|exact Hx]. eapply IHe; eauto.
+      - destruct (if is_CR c then ES e err else ES t err) as [e1|] eqn:Ea1; [|discriminate]. simpl in Hs.
+        unfold ethen2 in Hs. destruct (ES k (fst e1)) as [ek|] eqn:Ek; [|discriminate]. simpl in Hs.
+        inversion Hs; subst eres. clear Hs.
+        assert (Hcont : forall oa xa oa',
+                   eprom e1 oa xa ->
+                   match oa with Fall => EX k g oa' xa | Brk => (Brk, xa, oa') | Ret r0 => (Ret r0, xa, oa') end = (out, x', o') ->
+                   eprom (fst ek, snd e1 && snd ek) out x').
+        { intros oa xa oa' Hp Hy. destruct oa.
+          - assert (Hk : eprom ek out x') by (eapply IHk; [exact Ek|exact Hy|exact Hp]).
+            destruct out; simpl in *; auto. intros Hb. apply andb_true_iff in Hb. destruct Hb. auto.
+          - inversion Hy; subst. simpl in *. intros Hb. apply andb_true_iff in Hb. destruct Hb. auto.
+          - inversion Hy; subst. simpl in *. exact Hp. }
+        destruct (is_CR c).
+        + destruct (EX e g o x) as [[oa xa] oa'] eqn:Ea. eapply (Hcont oa xa oa'); [|exact Hx]. eapply IHe; eauto.
+        + destruct (EX t g o x) as [[oa xa] oa'] eqn:Ea. eapply (Hcont oa xa oa'); [|exact Hx]. eapply IHt; eauto.
+      - destruct (ES b err) as [eb|] eqn:Eb; [|discriminate]. simpl in Hs.
+        destruct (loop lf (fun o'0 x'0 => EX b g o'0 x'0) o x) as [[oa xa] oa'] eqn:El.
+        assert (Hl : match oa with Fall => (err = true -> v_err xa = true) | Brk => False
+                               | Ret r => is_fail r = true -> v_err xa = true end).
+        { eapply (loop_inv (fun y => err = true -> v_err y = true) (fun y => err = true -> v_err y = true)
+                           (fun r y => is_fail r = true -> v_err y = true)); [auto| | |exact Hinv|exact El].
+          - intros; discriminate.
+          - intros o0 y ob y' o0' Hy Hbd. pose proof (IHb _ _ _ _ _ _ _ _ Eb Hbd Hy) as Hp.
+            assert (Hm : err = true -> v_err y' = true) by (intros He; eapply exec_mono; [exact Hbd|apply Hy; exact He]).
+            destruct ob; simpl in Hp; auto. }
+        destruct oa.
+        + eapply IHk; [exact Hs|exact Hx|exact Hl].
+        + destruct Hl.
+        + inversion Hx; subst. simpl. exact Hl.
+    Qed.
+  End ExecNoisy.
+
+  Hypothesis HNS : forall id c, NS id c = true ->
+      exists r, rows id = Some r /\ is_some (escan NS c (vbody r) false) = true.
+
+  Lemma run_mono : forall fuel c id o x r x' o',
+      run rows prim benign fuel c id o x = (r, x', o') -> v_err x = true -> v_err x' = true.
+  Proof.
+    induction fuel as [|n IH]; intros c id o x r x' o' Hr He; simpl in Hr.
+    - inversion Hr; subst; exact He.
+    - destruct (rows id) as [r0|]; [|inversion Hr; subst; exact He].
+      destruct (exec rows prim benign (run rows prim benign n) n c (vbody r0) false o x) as [[oa xa] oa'] eqn:Ex.
+      pose proof (exec_mono (run rows prim benign n) n c IH _ _ _ _ _ _ _ Ex He) as H2.
+      destruct oa; inversion Hr; subst; exact H2.
+  Qed.
+
+  Theorem run_noisy : forall fuel c id o x r x' o',
+      NS id c = true -> run rows prim benign fuel c id o x = (r, x', o') -> is_fail r = true -> v_err x' = true.
+  Proof.
+    induction fuel as [|n IH]; intros c id o x r x' o' Hn Hr Hf; simpl in Hr.
+    - inversion Hr; subst. discriminate.
+    - destruct (HNS _ _ Hn) as [r0 [Hr0 Hs]]. rewrite Hr0 in Hr.
+      destruct (escan NS c (vbody r0) false) as [eres|] eqn:Ee; [|discriminate].
+      destruct (exec rows prim benign (run rows prim benign n) n c (vbody r0) false o x) as [[oa xa] oa'] eqn:Ex.
+      assert (Hrow : forall id0 c', NS id0 c' = true -> rows id0 <> None)
+        by (intros id0 c' H0; destruct (HNS _ _ H0) as [r1 [Hr1 _]]; congruence).
+      pose proof (exec_escan (run rows prim benign n) n c (run_mono n) IH Hrow _ _ _ _ _ _ _ _ _ Ee Ex (fun H => match Bool.diff_false_true H with end)) as Hp.
+      destruct oa; inversion Hr; subst; simpl in Hf; try discriminate. simpl in Hp. auto.
+  Qed.
+End Noisy.
+
+(* ------------------------------------------------------------------------------------------------ getters *)
+Local Open Scope Z_scope.
+Theorem getter_run_sound : forall (A : Type) pairs g idx parent cnt arr hi lo lo_val sub (n : Z) (a : list A) i r,
+    getter_ok pairs (GIdx g idx parent cnt arr hi lo lo_val sub) = true ->
+    Z.of_nat (List.length a) = n ->
+    getter_run hi lo lo_val sub n a i = Some r ->
+    1 <= i <= n /\ exists x, r = inl x /\ nth_error a (Z.to_nat (i - 1)) = Some x.
+Proof.
+  intros A pairs g idx parent cnt arr hi lo lo_val sub n a i r Hok Hlen Hrun.
+  unfold getter_run in Hrun. destruct (getter_accepts hi lo lo_val i n) eqn:Ea; [|discriminate].
+  destruct (getter_bounds _ _ _ _ _ _ _ _ _ _ _ _ Hok Ea) as [Hi [Hb [Hs _]]].
+  split; [exact Hi|]. rewrite Hs in *.
+  assert (Hin : (0 <=? i - 1) && (i - 1 <? Z.of_nat (List.length a)) = true).
+  { apply andb_true_iff. split; [apply Z.leb_le; lia|apply Z.ltb_lt; lia]. }
+  rewrite Hin in Hrun.
+  destruct (nth_error a (Z.to_nat (i - 1))) as [x|] eqn:En.
+  - exists x. inversion Hrun; subst. split; reflexivity.
+  - exfalso. apply nth_error_None in En. lia.
+Qed.
+
+Theorem getter_run_complete : forall (A : Type) pairs g idx parent cnt arr hi lo lo_val sub (n : Z) (a : list A) i,
+    getter_ok pairs (GIdx g idx parent cnt arr hi lo lo_val sub) = true ->
+    Z.of_nat (List.length a) = n -> 1 <= i <= n ->
+    exists x, getter_run hi lo lo_val sub n a i = Some (inl x) /\ nth_error a (Z.to_nat (i - 1)) = Some x.
+Proof.
+  intros A pairs g idx parent cnt arr hi lo lo_val sub n a i Hok Hlen Hi.
+  pose proof (getter_complete _ _ _ _ _ _ _ _ _ _ _ _ Hok Hi) as Ea.
+  destruct (getter_bounds _ _ _ _ _ _ _ _ _ _ _ _ Hok Ea) as [_ [Hb [Hs _]]].
+  unfold getter_run. rewrite Ea. rewrite Hs.
+  assert (Hin : (0 <=? i - 1) && (i - 1 <? Z.of_nat (List.length a)) = true).
+  { apply andb_true_iff. split; [apply Z.leb_le; lia|apply Z.ltb_lt; lia]. }
+  rewrite Hin.
+  destruct (nth_error a (Z.to_nat (i - 1))) as [x|] eqn:En.
+  - exists x. split; reflexivity.
+  - exfalso. apply nth_error_None in En. lia.
+Qed.
+
+Theorem getter_run_rejects : forall (A : Type) pairs g idx parent cnt arr hi lo lo_val sub (n : Z) (a : list A) i,
+    getter_ok pairs (GIdx g idx parent cnt arr hi lo lo_val sub) = true ->
+    (i < 1 \/ i > n) -> getter_run hi lo lo_val sub n a i = None.
+Proof.
+  intros A pairs g idx parent cnt arr hi lo lo_val sub n a i Hok Hi.
+  unfold getter_run. destruct (getter_accepts hi lo lo_val i n) eqn:Ea; [|reflexivity].
+  destruct (getter_bounds _ _ _ _ _ _ _ _ _ _ _ _ Hok Ea) as [H1 _]. lia.
+Qed.
+
+(* the ADDRESS4MULTIPLE macro has the same shape *)
+Theorem addr_macro_bounds : forall hi lo lo_val sub grows i n,
+    addr_macro_ok (Some (hi, lo, lo_val, sub, grows)) = true ->
+    getter_accepts hi lo lo_val i n = true -> 1 <= i <= n /\ i + sub = i - 1.
+Proof.
+  intros hi lo lo_val sub grows i n Hok Hacc. unfold addr_macro_ok in Hok.
+  repeat (apply andb_true_iff in Hok; destruct Hok as [Hok ?]).
+  destruct hi; try discriminate.
+  assert (Hsub : sub = -1) by (apply Z.eqb_eq; assumption). subst sub.
+  unfold getter_accepts in Hacc. apply negb_true_iff in Hacc. apply orb_false_iff in Hacc. destruct Hacc as [Hh Hl].
+  simpl in Hh. rewrite Z.gtb_ltb in Hh. apply Z.ltb_ge in Hh.
+  destruct lo; try discriminate.
+  - destruct lo_val as [|[| |]|]; try discriminate. simpl in Hl. apply Z.ltb_ge in Hl. lia.
+  - destruct lo_val; try discriminate. simpl in Hl. apply Z.leb_gt in Hl. lia.
+Qed.
+Local Close Scope Z_scope.
+
+(* ------------------------------------------------------------------------------------------------ concrete tables *)
+Lemma vrows_of_in : forall t id r, vrows_of t id = Some r -> In r t /\ vid r = id.
+Proof.
+  intros t id r H. unfold vrows_of in H. apply find_some in H. destruct H as [H1 H2].
+  split; [exact H1|apply Pos.eqb_eq; exact H2].
+Qed.
+
+Lemma tclosed_b_sound : forall prim benign t S,
+    tclosed_b prim benign t S = true ->
+    forall id r c, vrows_of t id = Some r -> may_touch prim benign (inset S) c (vbody r) = true -> inset S id c = true.
+Proof.
+  intros prim benign t S H id r c Hr Hm.
+  destruct (vrows_of_in _ _ _ Hr) as [Hin Hid]. subst id.
+  unfold tclosed_b in H. rewrite forallb_forall in H. specialize (H r Hin).
+  apply andb_true_iff in H. destruct H as [HR HW]. unfold vrow_touch in HR, HW.
+  destruct c; [rewrite Hm in HR; exact HR|rewrite Hm in HW; exact HW].
+Qed.
+
+Lemma key_inj : forall i c j d, key i c = key j d -> i = j /\ c = d.
+Proof. intros i c j d H. destruct c, d; simpl in H; inversion H; auto. Qed.
+
+Lemma gconsistent_sound : forall ok t S,
+    gconsistent_b ok t S = true ->
+    forall id c, inset S id c = true -> exists r, vrows_of t id = Some r /\ ok S r c = true.
+Proof.
+  intros ok t S H id c Hs. unfold gconsistent_b in H. apply andb_true_iff in H. destruct H as [H1 H2].
+  apply PositiveSet.for_all_2 in H2; [|intros x y ->; reflexivity].
+  assert (Hin : PositiveSet.In (key id c) S) by (apply PositiveSet.mem_2; exact Hs).
+  specialize (H2 _ Hin). simpl in H2.
+  destruct (vrows_of t id) as [r|] eqn:Er.
+  - exists r. split; [reflexivity|]. destruct (vrows_of_in _ _ _ Er) as [Hi Hid].
+    rewrite forallb_forall in H1. specialize (H1 r Hi). rewrite Hid in H1.
+    apply andb_true_iff in H1. destruct H1 as [HR HW].
+    destruct c; [rewrite Hs in HR; exact HR|rewrite Hs in HW; exact HW].
+  - exfalso. apply existsb_exists in H2. destruct H2 as [r [Hi He]].
+    apply orb_true_iff in He.
+    assert (Hv : vid r = id).
+    { destruct He as [He|He]; apply Pos.eqb_eq in He;
+        [change ((vid r)~0)%positive with (key (vid r) CR) in He|change ((vid r)~1)%positive with (key (vid r) CW) in He];
+        apply key_inj in He; destruct He; assumption. }
+    unfold vrows_of in Er. eapply find_none in Er; [|exact Hi]. rewrite Hv, Pos.eqb_refl in Er. discriminate.
+Qed.
+
+Section Table.
+  Variable t : list vrow.
+  Variable a : vanalysis.
+  Hypothesis Hok : van_ok t a = true.
+  Let pf := fun i => PositiveSet.mem i (va_prim a).
+  Let bf := fun i => PositiveSet.mem i (va_benign a).
+
+  Lemma van_parts :
+    tclosed_b pf bf t (va_T a) = true /\
+    gconsistent_b (c_ok pf bf (va_T a)) t (va_C a) = true /\
+    gconsistent_b (v_ok pf bf (va_T a) (va_C a)) t (va_V a) = true /\
+    gconsistent_b ns_ok t (va_NS a) = true.
+  Proof.
+    pose proof Hok as H. unfold van_ok in H. fold pf bf in H.
+    apply andb_true_iff in H. destruct H as [H H4]. apply andb_true_iff in H. destruct H as [H H3].
+    apply andb_true_iff in H. destruct H as [H1 H2]. repeat split; assumption.
+  Qed.
+
+  (* a function outside T changes nothing; a function of V that returns at a failing validation, and a function of C
+     that fails, has changed nothing *)
+  Theorem table_clean : forall fuel c id o x r x' o',
+      run (vrows_of t) pf bf fuel c id o x = (r, x', o') ->
+      (inset (va_T a) id c = false -> vsame x x') /\
+      (inset (va_C a) id c = true -> is_fail r = true -> vsame x x') /\
+      (inset (va_V a) id c = true -> r = RINV -> vsame x x').
+  Proof.
+    destruct van_parts as [HT [HC [HV _]]].
+    intros fuel c id o x r x' o' Hr.
+    eapply (run_clean (vrows_of t) pf bf (inset (va_T a)) (inset (va_C a)) (inset (va_V a))); [| | |exact Hr].
+    - intros id0 r0 c0. eapply tclosed_b_sound; exact HT.
+    - intros id0 c0 H0. destruct (gconsistent_sound _ _ _ HC _ _ H0) as [r0 [H1 H2]]. exists r0. split; assumption.
+    - intros id0 c0 H0. destruct (gconsistent_sound _ _ _ HV _ _ H0) as [r0 [H1 H2]]. exists r0. split; assumption.
+  Qed.
+
+  Theorem table_noisy : forall fuel c id o x r x' o',
+      inset (va_NS a) id c = true ->
+      run (vrows_of t) pf bf fuel c id o x = (r, x', o') -> is_fail r = true -> v_err x' = true.
+  Proof.
+    destruct van_parts as [_ [_ [_ HN]]].
+    intros fuel c id o x r x' o' Hn Hr Hf.
+    eapply (run_noisy (vrows_of t) pf bf (inset (va_NS a))); [|exact Hn|exact Hr|exact Hf].
+    intros id0 c0 H0. destruct (gconsistent_sound _ _ _ HN _ _ H0) as [r0 [H1 H2]]. exists r0. split; assumption.
+  Qed.
+End Table.
